@@ -70,6 +70,26 @@ def gen_cfgs(ctx, n):
         it = ['f1'] * cfg.accum + ['s']
         cfg.ops = it + ['h:0'] + it + ['v1', 'l11'] + it * 3
         cfgs.append(cfg)
+    # directed: callable damping baked into the second-order data at refresh time, checkpoint taken mid-interval and
+    # loaded (with recomputation) into a fresh preconditioner: the damping of the CHECKPOINTED step is used
+    for method, prediv in (('inverse', False), ('eigen', True)):
+        cfg = kfacsim.Config(rng, world=rng.choice([1, 2]), method=method, prediv=prediv, colocate=True)
+        cfg.hyper_changes = []
+        cfg.hyper['damping'] = [Fraction(1, 4), Fraction(1, 8), Fraction(1, 2), Fraction(1, 16), Fraction(1, 3), Fraction(1, 5)]
+        cfg.hyper['inv_update_steps'] = rng.choice([3, 4])
+        cfg.hyper['factor_update_steps'] = 1
+        it = ['f1'] * cfg.accum + ['s']
+        cfg.ops = it * 2 + ['l11'] + it * 3
+        cfgs.append(cfg)
+    # directed: a clip schedule that reaches exactly 0 through the real scheduler (nu = 0 from then on, not "no clipping")
+    for _ in range(2):
+        cfg = kfacsim.Config(rng, world=rng.choice([1, 2]))
+        cfg.hyper['kl_clip'] = Fraction(1, 100)
+        cfg.hyper_changes = [{'kl_clip': Fraction(1, 200)}, {'kl_clip': Fraction(0)}]
+        cfg.hyper_factors = [{'kl_clip': Fraction(1, 2)}, {'kl_clip': Fraction(0)}]
+        it = ['f1'] * cfg.accum + ['s']
+        cfg.ops = it + ['h:0'] + it + ['h:1'] + it * 2
+        cfgs.append(cfg)
     while len(cfgs) < n:
         cfg = kfacsim.Config(rng, world=rng.choice([1, 1, 2, 3, 4]))
         cfg.hyper['factor_update_steps'] = rng.choice([1, 2, 3, 3, 5, [1, 2, 2, 1, 3, 1, 1, 2], [2, 2, 3, 3, 1, 1]])
@@ -99,6 +119,32 @@ def gen_cfgs(ctx, n):
                         ch[name] = rng.choice(vals)
                 if ch:
                     cfg.hyper_changes.append(ch)
+            if rng.random() < 0.6:
+                # express the changes as multiplicative factors applied by the real LambdaParamScheduler
+                cur = {k: v for k, v in cfg.hyper.items() if not isinstance(v, list)}
+                pools = {'damping': [Fraction(1, 2), Fraction(1, 4), Fraction(2)], 'factor_decay': [Fraction(1, 2), Fraction(3, 4)],
+                         'inv_update_steps': [Fraction(2), Fraction(1, 2), Fraction(3, 2), Fraction(3)],
+                         'factor_update_steps': [Fraction(2), Fraction(1, 2), Fraction(3, 2)],
+                         'lr': [Fraction(1, 2), Fraction(2)], 'kl_clip': [Fraction(1, 2), Fraction(0), Fraction(0), Fraction(4)]}
+                facs, vals = [], []
+                for ch in cfg.hyper_changes:
+                    fd, vd = {}, {}
+                    for name in ch:
+                        if cur.get(name) is None:
+                            continue
+                        f = rng.choice(pools[name])
+                        v = Fraction(cur[name]) * f
+                        if name.endswith('_steps'):
+                            v = Fraction(int(v))
+                            if v < 1:
+                                continue
+                        fd[name], vd[name] = f, v
+                        cur[name] = v
+                    facs.append(fd)
+                    vals.append(vd)
+                keep = [i for i, fd in enumerate(facs) if fd]
+                cfg.hyper_factors = [facs[i] for i in keep]
+                cfg.hyper_changes = [vals[i] for i in keep]
             # insert at iteration boundaries (after an 's')
             idx = [i + 1 for i, o in enumerate(ops) if o == 's']
             for j in range(len(cfg.hyper_changes)):
